@@ -586,7 +586,7 @@ async fn storm(ctx: Ctx, idx: u64) -> Report {
                 // fill-phase and token-phase clients are also scripted clients of this scenario
                 let is_client = match w.dst {
                     SocketAddr::V4(a) => a.ip().octets()[0] == 30,
-                    SocketAddr::V6(a) => a.ip().segments()[1] == 9,
+                    SocketAddr::V6(a) => a.ip().segments()[1] == 9 || a.ip().to_ipv4_mapped().map(|m| m.octets()[0] == 30).unwrap_or(false),
                 };
                 if !is_client {
                     report.violation(
